@@ -7,6 +7,10 @@ Literal recipes:  ["i",n] ["s",str] ["f",x] ["b",bool] ["none"] ["ell"] ["bytes"
                   ["Spec", L]           Spec(L) where L is a T recipe
                   ["tval", path]        a value *owned by the target* (test harness only): the object
                                         reached from the target by the given list of keys/indexes
+                  ["inst", name, items, state]   an instance of a container SUBCLASS registered in LIT_CLASSES by the
+                                        property module (C02: defaultdict, user subclasses with attributes): items are
+                                        literal recipes ([key, value] pairs for mappings), `state` is what the instance
+                                        carries besides its items.  Always a literal: ref_arg does not look inside.
 Step recipes:     [".", name] ["[", L] ["(", [L..], [[kw, L]..]] ["bin", op, L] ["un", op] ["x"] ["X"]
                   op for bin: + - * / // % ** & | ^      op for un: ~ neg
 """
@@ -17,6 +21,9 @@ import glom
 from glom import T, S, A, Spec
 
 ROOTS = {'T': T, 'S': S, 'A': A}
+
+# name -> (is_mapping, constructor(items, state)); filled by the property module that generates ["inst", ...] literals
+LIT_CLASSES = {}
 
 BINOPS = {
     '+': operator.add, '-': operator.sub, '*': operator.mul, '/': operator.truediv,
@@ -53,6 +60,11 @@ def build_lit(r, target=None):
         return build_t(r[1], r[2], target)
     if tag == 'Spec':
         return Spec(build_lit(r[1], target))
+    if tag == 'inst':
+        is_map, ctor = LIT_CLASSES[r[1]]
+        items = ([(build_lit(k, target), build_lit(v, target)) for k, v in r[2]] if is_map
+                 else [build_lit(x, target) for x in r[2]])
+        return ctor(items, r[3])
     if tag == 'tval':
         cur = target
         for k in r[1]:
